@@ -303,7 +303,34 @@ func runQuery1(ds sgbucket.DataStore, q QueryOp) (rows [][]byte, err error) {
 	return rows, it.Close()
 }
 
+// BulkSetStep writes arg.n further documents (keys m000...) into collection op.C: result sets longer
+// than a handful of rows. The documents enter the model through a read-back like any other write.
+func (r *Run) BulkSetStep(op Op) {
+	n := 0
+	if f, ok := op.Arg["n"].(float64); ok {
+		n = int(f)
+	} else if i, ok := op.Arg["n"].(int); ok {
+		n = i
+	}
+	ds := r.W.Coll(op.H, op.C)
+	tr := StepTrace{Op: op, Outcome: "bulk-written"}
+	defer func() { r.Trace = append(r.Trace, tr) }()
+	for i := 0; i < n; i++ {
+		key := fmt.Sprintf("m%03d", i)
+		body := []byte(fmt.Sprintf(`{"k":%d,"n":%d,"type":"t%d"}`, i%3, i, 1+i%2))
+		if err := ds.Set(key, 0, nil, body); err != nil {
+			r.dev("bulk.set", []string{"C01"}, "Set(%s) failed: %v", key, err)
+			tr.Outcome = "DEVIATION"
+			return
+		}
+		st, _ := Observe(ds, key, nil)
+		r.W.Model.Commit(op.C, key, st, "Set")
+	}
+	r.SyncFeeds()
+}
+
 func init() {
+	pseudoHandlers["BulkSet"] = func(r *Run, op Op) { r.BulkSetStep(op) }
 	pseudoHandlers["Query"] = func(r *Run, op Op) { r.QueryStep(op) }
 	pseudoHandlers["CloseIters"] = func(r *Run, op Op) {
 		r.closeIters()
